@@ -40,6 +40,10 @@ Definition sp_tanh := Neg (Dv (Mul (Mul Jm (Par 0)) Pi) (App HSinh (Mul (Pw Pi 2
 Definition sp_tratio :=
   Mul (Par 0) (Sub (Dv (Dl 0 Var) (Par 5))
                    (Mul (Mul (Dv (Mul TPI (Par 6)) (Pw (Par 5) 2)) (App HExp (Mul (Dv (Mul TPI (Par 6)) (Par 5)) Var))) (App HHeav (Neg Var)))).
+(* the same for b/a < 0 (pole in the lower half plane) *)
+Definition sp_tration :=
+  Mul (Par 0) (Add (Dv (Dl 0 Var) (Par 5))
+                   (Mul (Mul (Dv (Mul TPI (Par 6)) (Pw (Par 5) 2)) (App HExp (Mul (Dv (Mul TPI (Par 6)) (Par 5)) Var))) (App HHeav Var))).
 Definition sp_cexp := Mul (Par 0) (Dl 0 (Sub Var (Dv (Par 9) (Mul Jm TPI)))).
 Definition sp_simshift :=
   Mul (Par 0) (Mul (Dv (Rec (Dv Var (Par 7))) (App HAbs (Par 7))) (App HExp (Mul (Dv (Mul (Mul Jm TPI) Var) (Par 7)) (Par 8)))).
@@ -59,7 +63,7 @@ Notation evq := (ev C rho Q).
 
 Ltac evs := cbn [ev happ fofZ fofpos Pos.iter_op fpow sp_const sp_t sp_t2 sp_abs sp_sign sp_step sp_recip sp_recip2
   sp_tstep sp_expu sp_sincn sp_sincu sp_sincn2 sp_rect sp_tri sp_trap sp_trap0 sp_s sp_reciplin sp_sech sp_csch sp_tanh
-  sp_cexp sp_simshift sp_mod sp_tratio N2 TPI Sub Dv].
+  sp_cexp sp_simshift sp_mod sp_tratio sp_tration N2 TPI Sub Dv].
 Ltac nzc := pose proof (tpi_nz K C) as Htpi; pose proof (j_nz K C) as Hj; pose proof (two_nz K) as H2;
   pose proof (c_pi_nz C) as Hpi; unfold tpi, two in *.
 Ltac offp l t := apply (eqae_off K l); intros t ?Hin; cbv beta.
@@ -160,6 +164,25 @@ Proof. intros H5 Hs. nzc. set (c := - (((1 + 1) * pi) * rho 6 / rho 5)) in *.
     replace (- - ((1 + 1) * pi * rho 6 / rho 5) * f) with ((1 + 1) * pi * rho 6 * (1 / rho 5) * f) by (field; nz).
     field. nz.
 Qed.
+Theorem sp_sound_tration : rho 5 <> 0 -> c_stable C (((1 + 1) * pi) * rho 6 / rho 5) ->
+  FP (fun t => rho 0 * (t / (rho 5 * t - j * rho 6))) (evq sp_tration).
+Proof. intros H5 Hs. nzc. set (c := ((1 + 1) * pi) * rho 6 / rho 5) in *.
+  pose proof (FP_scale K C (rho 0) _ _ (FP_lin K C (1 / rho 5) ((rho 6 * ((1 + 1) * pi)) / (rho 5 * rho 5)) _ _ _ _ (FP_const K C)
+                (FP_reverse K C _ _ (FP_rtnexpu K C 0 c Hs)))) as H.
+  eapply FP_ext; [ | | exact H].
+  - offp [j * rho 6 / rho 5] t.
+    assert (D1 : rho 5 * t - j * rho 6 <> 0).
+    { intro Z. apply Hin. left. transitivity ((rho 5 * t - j * rho 6 + j * rho 6) / rho 5); [rewrite Z|]; field; nz. }
+    pose proof (c_j2 C) as J2.
+    assert (E1 : j * ((1 + 1) * pi) * - t - c = (- (j * ((1 + 1) * pi)) / rho 5) * (rho 5 * t - j * rho 6)).
+    { unfold c. field_simplify_eq; [knsatz | nz]. }
+    assert (D2 : j * ((1 + 1) * pi) * - t - c <> 0) by (rewrite E1; apply mul_nz; [apply div_nz; nz | exact D1]).
+    unfold tpi, two. cbn [fpow]. rewrite E1. field_simplify_eq; [knsatz | nz].
+  - apply eqae_all. intros f. evs. cbn [natfact fnat fpow]. unfold c.
+    replace (- ((1 + 1) * pi * rho 6 / rho 5) * - f) with ((1 + 1) * pi * rho 6 * (1 / rho 5) * f) by (field; nz).
+    replace (- - f) with f by ring.
+    field. nz.
+Qed.
 (* complex exponential e^{ea t} with ea = j 2 pi f0, f0 real: modulation of the constant *)
 Theorem sp_sound_cexp : c_isR C (rho 9 / (j * tpi C)) -> FP (fun t => rho 0 * E (rho 9 * t)) (evq sp_cexp).
 Proof. intros HR. nzc.
@@ -223,4 +246,4 @@ Ltac tab_norm K C Q :=
 Ltac tab_close := first [ reflexivity | ring | (field; nz) ].
 Ltac tab_evs := cbn [ev happ fofZ fofpos Pos.iter_op fpow sp_const sp_t sp_t2 sp_abs sp_sign sp_step sp_recip sp_recip2
   sp_tstep sp_expu sp_sincn sp_sincu sp_sincn2 sp_rect sp_tri sp_trap sp_trap0 sp_s sp_reciplin sp_sech sp_csch sp_tanh
-  sp_cexp sp_simshift sp_mod sp_tratio N2 TPI Sub Dv].
+  sp_cexp sp_simshift sp_mod sp_tratio sp_tration N2 TPI Sub Dv].
